@@ -193,3 +193,54 @@ func ZZH_C15_submit() {
 	zz.Cover("C15.submit.vote-accepted", verr == nil)
 	zz.Assert("C15.submit.vote-only-from-eligible", (verr == nil) == avail[zzAdminIDs[vi]])
 }
+
+// ZZH_C15_electorate_change: while a proposal is open - being voted on (PROPOSED) or paused by a
+// higher-priority one (PAUSED) - one of its electors is frozen, activated again, or a logout of
+// it is rejected, concluded through the real RoleManager.Manage (real Governance behind
+// CrossInvoke). The proposal's number of available electors follows the change in both statuses,
+// so that the tally later judges "approval unreachable" against the current electorate.
+func ZZH_C15_electorate_change() {
+	w, cs := zzFullWorld()
+	w.audit = zz.Choice("audit", 2) == 1
+	zzPutGovAdmins(w, 4)
+	who := zzAdminIDs[2]
+	var ev governance.EventType
+	var pre governance.GovernanceStatus
+	var result string
+	delta := int64(0)
+	switch zz.Choice("change", 3) {
+	case 0:
+		ev, pre, result, delta = governance.EventFreeze, governance.GovernanceFreezing, string(APPROVED), -1
+	case 1:
+		ev, pre, result, delta = governance.EventActivate, governance.GovernanceActivating, string(APPROVED), 1
+	default:
+		ev, pre, result, delta = governance.EventLogout, governance.GovernanceLogouting, string(REJECTED), 1
+	}
+	last := governance.GovernanceAvailable
+	if ev == governance.EventActivate {
+		last = governance.GovernanceFrozen
+	}
+	w.putObj(zzRoleAddr, RoleKey(who), Role{ID: who, RoleType: GovernanceAdmin, Weight: 1, Status: pre})
+	status := []ProposalStatus{PROPOSED, PAUSED}[zz.Choice("proposalStatus", 2)]
+	availBefore := uint64(3)
+	if delta < 0 {
+		availBefore = 4
+	}
+	p := &Proposal{Id: "0xSponsor-7", Typ: AppchainMgr, Status: status, ObjId: "chQ", ObjLastStatus: governance.GovernanceAvailable,
+		BallotMap: map[string]pb.Ballot{}, EventType: governance.EventUpdate, StrategyType: SimpleMajority, StrategyExpression: repo.DefaultSimpleMajorityExpression,
+		InitialElectorateNum: 4, AvailableElectorateNum: availBefore, ThresholdApproveNum: 3}
+	for _, id := range zzAdminIDs {
+		p.ElectorateList = append(p.ElectorateList, &Role{ID: id, RoleType: GovernanceAdmin, Weight: 1, Status: governance.GovernanceAvailable})
+	}
+	w.putObj(zzGovAddr, ProposalKey(p.Id), *p)
+	idx := orderedmap.New()
+	idx.Set(p.Id, struct{}{})
+	w.putObj(zzGovAddr, ProposalStatusKey(string(status)), *idx) // the by-status index addProposal / changeProposalStatus keep
+	_, err := zzInvoke(w, cs[zzRoleAddr], zzRoleAddr, zzGovAddr, "Manage",
+		[]*pb.Arg{pb.String(string(ev)), pb.String(result), pb.String(string(last)), pb.String(who), pb.Bytes(nil)})
+	zz.Assert("C15.electorate.concludes", err == nil)
+	post, ok := zzProposalOf(w, p.Id)
+	zz.Assert("C15.electorate.proposal-kept", ok && post.Status == status)
+	zz.Assert("C15.electorate.available-number-follows", int64(post.AvailableElectorateNum) == int64(availBefore)+delta)
+	zz.Assert("C15.electorate.tallies-untouched", post.ApproveNum == 0 && post.AgainstNum == 0 && post.InitialElectorateNum == 4)
+}
